@@ -333,6 +333,9 @@ impl Runner {
         data.extend_from_slice(&token);
         let src = self.w.nodes[peer].addr;
         let id = self.w.inject(src, victim_addr, data, "reset", u64::MAX, 0);
+        if let Some(d) = self.w.net.last_mut() {
+            d.exact = kind == "exact" && len >= 21;
+        }
         self.w.log(json!({"ev":"ResetLike","t":t,"ok":true,"to":to,"c":c,"kind":kind,"len":len,
             "id":id,"exact":kind=="exact" && len >= 21}));
     }
